@@ -16,6 +16,7 @@
 (***************************************************************************)
 EXTENDS XPath, Json, IOUtils, TLC
 
+CONSTANT OpenFx   \* the open known-finding switches
 Trace == ndJsonDeserialize(IOEnv.TRACE)
 
 VARIABLES l,      \* next trace line
@@ -81,8 +82,14 @@ ExecRet ==
          env == NormEnv(ev.env)
          want == Eval(d, env, ev.e, Ctx(ev.ctx))
          v == Judge(d, ev.e, want, ev.res)
-         bad == v.val = "bad" \/ v.ord = "bad"
+         bad0 == v.val = "bad" \/ v.ord = "bad"
+         \* a deviation that is exactly the recorded behaviour of an open known finding
+         known == bad0 /\ Affected(ev.e, OpenFx) /\
+                  LET kv == Judge(d, ev.e, Eval(d, [ns |-> env.ns, vars |-> env.vars, funcs |-> env.funcs, fx |-> OpenFx], ev.e, Ctx(ev.ctx)), ev.res)
+                  IN kv.val # "bad" /\ kv.ord # "bad"
+         bad == bad0 /\ ~known
      IN /\ (bad => PrintT(ToJson([verdict |-> v, l |-> l, want |-> JVT(want)])))
+        /\ (known => PrintT(ToJson([verdict |-> "known", l |-> l, fx |-> OpenFx])))
         /\ ((v.val = "skip") => PrintT(ToJson([verdict |-> "skip", l |-> l])))
         /\ nbad' = nbad + (IF bad THEN 1 ELSE 0)
   /\ UNCHANGED docs
